@@ -8,9 +8,10 @@ LOW = {"n": 16, "r": 1, "p": 1, "dkLen": 64}
 SCHEMES = ["SHA256withECDSA", "SHA3-256withECDSA"]
 NULLM = {"id": 0, "label": "", "dflt": False, "scheme": ""}
 ALL_ACTS = ["New", "Import", "Delete", "SetDefault", "SetLabel", "ChangePassword", "ChangeScheme", "Reload"]
+FAULTS = ["SetFault", "ClearFault"]
 
 
-def cfg_text(import_ids, new_ids, labels, wscrypt, max_obj, max_ops, acts, dev_new, dev_dup, invariants, export, schemes=None):
+def cfg_text(import_ids, new_ids, labels, wscrypt, max_obj, max_ops, acts, dev_new, dev_dup, invariants, export, schemes=None, props=True):
     def s(xs):
         return "{" + ", ".join(json.dumps(x) for x in xs) + "}"
     lines = ["SPECIFICATION Spec", "CONSTANTS",
@@ -28,6 +29,8 @@ def cfg_text(import_ids, new_ids, labels, wscrypt, max_obj, max_ops, acts, dev_n
              "  DupAddrImport = %s" % ("TRUE" if dev_dup else "FALSE"),
              "VIEW view",
              "INVARIANTS " + " ".join(invariants)]
+    if props:
+        lines.append("PROPERTIES FailNoChange")
     if export:
         lines += ["CONSTRAINT InitOut", "ACTION_CONSTRAINT Edge"]
     lines.append("CHECK_DEADLOCK FALSE")
@@ -113,7 +116,7 @@ def tlc_asis(ctx, name, dev, simulate=None, depth=None, **kw):
         inv += ["Persist", "OneDefault"]
     if not (dev["NewIgnoresWalletScrypt"] and kw["wscrypt"] != "def" and kw["new_ids"]):
         inv.append("Opens")
-    txt = cfg_text(dev_new=dev["NewIgnoresWalletScrypt"], dev_dup=dev["DupAddrImport"], export=True, invariants=inv, **kw)
+    txt = cfg_text(dev_new=dev["NewIgnoresWalletScrypt"], dev_dup=dev["DupAddrImport"], export=True, invariants=inv, props=not simulate, **kw)
     r = _tlccache.run(ctx, "Wallet_MC", "Wallet", name, txt, simulate=simulate, depth=depth, workers=1)
     if r.status != "ok" and not (simulate and r.status == "error" and not r.errors):
         ctx.infra("TLC failed on %s: %s %s %s" % (name, r.status, r.violated, r.errors[:2]))
